@@ -21,7 +21,7 @@ MCMlpNInits == { [h |-> q] : q \in SeqsOver({16, 32, 48, 64}, 2, 3) }
 
 (* ---- CNN: 16x16 images, <= 3 layers, channels 8..24 ------------------------------------------- *)
 MCCnn == [kind |-> "cnn", name |-> "cnn", inc |-> 2, inh |-> 16, depth |-> 0, no |-> 3, minl |-> 1, maxl |-> 3,
-          minc |-> 8, maxc |-> 24, deltas |-> DC, ln |-> TRUE]
+          minc |-> 8, maxc |-> 24, deltas |-> DC, ln |-> TRUE, nolayer |-> FALSE]
 \* every well-formed architecture of the grid whose kernels are at most those the code itself would draw
 \* (<= a quarter of the feature map they produce, or 1..3 for the first layer)
 CnnGrid(c, CH, KS, ST, maxl) ==
@@ -53,7 +53,7 @@ MCResnetInits == { [b |-> b, c |-> c] : b \in 1..3, c \in {8, 16, 24, 32, 40} }
 
 (* ---- MultiInput: image + vector members ------------------------------------------------------- *)
 MCSubCnn == [kind |-> "cnn", name |-> "img", inc |-> 2, inh |-> 16, depth |-> 0, no |-> 0, minl |-> 1, maxl |-> 2,
-             minc |-> 8, maxc |-> 16, deltas |-> DC, ln |-> FALSE]
+             minc |-> 8, maxc |-> 16, deltas |-> DC, ln |-> FALSE, nolayer |-> FALSE]
 MCSubMlp == [kind |-> "mlp", name |-> "vector_mlp", ni |-> 5, no |-> 0, minl |-> 1, maxl |-> 2, minn |-> 16, maxn |-> 48,
              deltas |-> D3, ln |-> TRUE, oln |-> FALSE, noisy |-> FALSE]
 MCMulti == [kind |-> "multi", no |-> 3, minlat |-> 8, maxlat |-> 32, ldeltas |-> DC, fixed |-> 0,
@@ -74,9 +74,10 @@ MCNet == [kind |-> "net", minlat |-> 8, maxlat |-> 32, ldeltas |-> DC, enc |-> M
 MCNetInits == { [lat |-> 16, enc |-> [h |-> <<16>>], head |-> [h |-> <<16>>]],
                 [lat |-> 24, enc |-> [h |-> <<32, 16>>], head |-> [h |-> <<32, 48>>]] }
 \* image encoder + stochastic-actor head (wrapped, log_std)
-MCNetC == [MCNet EXCEPT !.enc = [MCSubCnn EXCEPT !.name = "encoder", !.ln = TRUE], !.head = [MCHead EXCEPT !.name = "actor"],
+MCNetC == [MCNet EXCEPT !.enc = [MCSubCnn EXCEPT !.name = "encoder", !.ln = TRUE, !.nolayer = TRUE], !.head = [MCHead EXCEPT !.name = "actor"],
                         !.hpath = "head_net._wrapped.", !.logstd = 2]
-MCNetCInits == { [lat |-> 16, enc |-> [ch |-> <<8, 8>>, ks |-> <<3, 3>>, st |-> <<1, 1>>], head |-> [h |-> <<16>>]] }
+MCNetCInits == { [lat |-> 16, enc |-> [ch |-> <<8, 8>>, ks |-> <<3, 3>>, st |-> <<1, 1>>], head |-> [h |-> <<16>>]],
+                 [lat |-> 24, enc |-> [ch |-> <<16>>, ks |-> <<3>>, st |-> <<2>>], head |-> [h |-> <<32, 16>>]] }
 
 (* ---- M2: print the configuration, the initial states and every transition once ---------------- *)
 DumpInit == (TLCGet("level") = 1) => PrintT(<<"INIT", ToJson(arch)>>)
